@@ -37,6 +37,16 @@ CHECKS = {
              "bytes are judged the same way.",
         design="DESIGN.md §5 C14",
         note=TRUST + "; exact coordinate comparison on a lattice of short literals"),
+    "C12": dict(
+        technique="TLA+ relation Tex over exactly decoded f32 coordinates (spec/F32.tla); TLC checks sampler agreement "
+                  "and containment over a size x coordinate lattice and exports it; trace validation of recorded "
+                  "sampler calls",
+        text="TLC enumerates texture sizes x a coordinate lattice (quarters, +-0, the 2^31 boundary, huge, inf, NaN), "
+             "checks on the relation that the three samplers agree in range and never leave the texture, and exports "
+             "every point; the real samplers (absolute and relative entry points, owned and sub-region textures) are "
+             "run on those points and on seeded random f32 bit patterns, and every call is judged by TLC.",
+        design="DESIGN.md §5 C12",
+        note=TRUST + "; f32 decoding in harness/src/util.rs"),
 }
 
 NOT_YET = "check not built yet in this round (see DESIGN.md §9 for the order of work)"
